@@ -348,7 +348,7 @@ impl<'a> Interp<'a> {
 
     /// an amount relative to the sender's delegation at that validator
     fn stake_coin(&self, sender: &str, validator: &str, c: &CoinSpec) -> Coin {
-        let d = DENOMS[c.denom as usize % 3];
+        let d = DENOMS[c.denom as usize % DENOMS.len()];
         let b = self.st.deleg.get(&(sender.to_string(), validator.to_string())).copied().unwrap_or(0);
         let a = match c.amt {
             Amt::Exact(n) => n,
@@ -368,7 +368,7 @@ impl<'a> Interp<'a> {
         specs
             .iter()
             .map(|c| {
-                let d = DENOMS[c.denom as usize % 3];
+                let d = DENOMS[c.denom as usize % DENOMS.len()];
                 let b = self.bal(owner, d);
                 let a = match c.amt {
                     Amt::Exact(n) => n,
@@ -415,10 +415,10 @@ impl<'a> Interp<'a> {
 
     pub fn resolve_query(&self, q: &QSpec) -> QueryRequest<XQuery> {
         match q {
-            QSpec::Balance(a, d) => BankQuery::Balance { address: self.aref(*a), denom: DENOMS[*d as usize % 3].into() }.into(),
+            QSpec::Balance(a, d) => BankQuery::Balance { address: self.aref(*a), denom: DENOMS[*d as usize % DENOMS.len()].into() }.into(),
             #[allow(deprecated)]
             QSpec::AllBalances(a) => BankQuery::AllBalances { address: self.aref(*a) }.into(),
-            QSpec::Supply(d) => BankQuery::Supply { denom: DENOMS[*d as usize % 3].into() }.into(),
+            QSpec::Supply(d) => BankQuery::Supply { denom: DENOMS[*d as usize % DENOMS.len()].into() }.into(),
             QSpec::Raw(c, k) => WasmQuery::Raw { contract_addr: self.cref(*c), key: Binary::from(k.0.clone()) }.into(),
             QSpec::ContractInfo(c) => WasmQuery::ContractInfo { contract_addr: self.cref(*c) }.into(),
             QSpec::CodeInfo(k) => WasmQuery::CodeInfo { code_id: self.kref(*k) }.into(),
@@ -504,7 +504,7 @@ impl<'a> Interp<'a> {
                 if !Self::valid_addr(&addr) {
                     return Err(());
                 }
-                let denom = DENOMS[*d as usize % 3];
+                let denom = DENOMS[*d as usize % DENOMS.len()];
                 let amount = view.bank.get(&addr).and_then(|m| m.get(denom)).copied().unwrap_or(0);
                 ok(to_json_string(&cosmwasm_std::BalanceResponse::new(coin(amount, denom))))
             }
@@ -518,7 +518,7 @@ impl<'a> Interp<'a> {
                 ok(to_json_string(&r))
             }
             QSpec::Supply(d) => {
-                let denom = DENOMS[*d as usize % 3];
+                let denom = DENOMS[*d as usize % DENOMS.len()];
                 let total: u128 = view.bank.values().map(|m| m.get(denom).copied().unwrap_or(0)).sum();
                 ok(to_json_string(&cosmwasm_std::SupplyResponse::new(coin(total, denom))))
             }
